@@ -117,6 +117,24 @@ CORPUS_PAIRS = [
 ]
 
 
+def _kp(pre, init):
+    g = _k(x="v")
+    g["nodes"].append({"cls": "LWK", "values": [["v", 1]], "meta": None, "pre": [], "init": [], "task": None})
+    g["nodes"].append({"cls": "LWK", "values": [["v", 2]], "meta": None, "pre": [], "init": [], "task": None})
+    g["nodes"][0]["pre"], g["nodes"][0]["init"] = pre, init
+    return g
+
+
+CORPUS_LIB["classes"].append({"name": "LWK", "xpmid": "xvlib_c03c.lwk", "parent": None, "kind": "light", "deprecated": False,
+                              "args": [{"name": "v", "decl": "param", "ty": "int", "optional": False}]})
+CORPUS_PAIRS += [
+    ("pretask-vs-init-task", _kp([1], []), _kp([], [1])),
+    ("pretask-vs-init-task", _kp([1], [2]), _kp([], [1, 2])),
+    ("init-task-order", _kp([], [1, 2]), _kp([], [2, 1])),
+    ("pretask-set", _kp([1], []), _kp([1, 2], [])),
+]
+
+
 def run_corpus(ctx):
     cases = [{"lib": 0, "steps": id_steps(a, "A") + id_steps(b, "B")} for _, a, b in CORPUS_PAIRS]
     res = identlib.run_cases(ctx, [CORPUS_LIB], cases, shards=2)[None]
@@ -127,7 +145,8 @@ def run_corpus(ctx):
         fa, ra, fb, rb = ids_of(rec, 1, 1)
         ctx.case({"corpus": kind, "a": a, "b": b}, True)
         ctx.count("corpus", kind)
-        if fa[0] == fb[0] or ra[0] == rb[0]:
+        full_only = kind in ("pretask-vs-init-task", "init-task-order", "pretask-set")
+        if fa[0] == fb[0] or (ra[0] == rb[0] and not full_only):
             ctx.monitor_fail(f"collision:{kind}", f"{a['nodes'][0]['values']} and {b['nodes'][0]['values']} share identifier {fa[0][:16]}…", {"a": a, "b": b})
         good.append(({"graph": a, "edit": {"kind": kind}}, rec))
     return good
